@@ -59,6 +59,11 @@ type scenario struct {
 	SameCache []int       `json:"same_cache"` // thread indexes sharing one *Cache (goroutines of one process)
 	MustHit   []string    `json:"must_hit"`   // ids whose lookups must never miss (pre-stored, only re-stored identically)
 	Bound     int         `json:"bound"`
+	// PreTrimmed: contents whose output files are taken away after the entries
+	// of Pre were stored (what Trim does to an output whose index entry is still
+	// being looked up): those ids are unreadable at the start, and readable
+	// again once a Put for them has succeeded
+	PreTrimmed []string `json:"pre_trimmed,omitempty"`
 }
 
 func (s scenario) String() string {
@@ -278,6 +283,17 @@ func (in *instance) body() {
 		in.invoked[p[0]][p[1]] = true
 		in.putOK[p[0]] = true
 	}
+	for _, x := range in.sc.PreTrimmed {
+		h := sha256.Sum256(contents[x])
+		if err := os.Remove(filepath.Join(nd, fmt.Sprintf("%02x", h[0]), fmt.Sprintf("%x-d", h))); err != nil {
+			kit.Harness("take the output of %s away: %v", x, err)
+		}
+		for _, p := range in.sc.Pre {
+			if p[1] == x {
+				in.putOK[p[0]] = false // unreadable until stored again
+			}
+		}
+	}
 	vos.Hook = save
 	shared := cache.WithDirVerif(in.tmpl, nd)
 	for ti, prog := range in.sc.Threads {
@@ -484,6 +500,8 @@ func scenarios(th bool) []scenario {
 		{Name: "3 different ids shared output", Threads: [][]op{{put("A", "X")}, {put("B", "X")}, {gf("A"), gb("B")}}, Bound: b3},
 		{Name: "4 identical re-store", Pre: [][2]string{{"A", "X"}}, Threads: [][]op{{put("A", "X")}, {gb("A"), gf("A")}, {gf("A")}}, MustHit: []string{"A"}, Bound: b3},
 		{Name: "5 overwrite same length", Pre: [][2]string{{"A", "X"}}, Threads: [][]op{{put("A", "Z")}, {gb("A"), gf("A")}}, Bound: b2},
+		{Name: "13 identical re-store after the output was trimmed away", Pre: [][2]string{{"A", "X"}}, PreTrimmed: []string{"X"}, Threads: [][]op{{put("A", "X")}, {put("A", "X")}, {gb("A"), gf("A")}}, Bound: b3},
+		{Name: "13b re-store under another id after the output was trimmed away", Pre: [][2]string{{"A", "X"}}, PreTrimmed: []string{"X"}, Threads: [][]op{{put("B", "X")}, {gb("A"), gf("A")}}, Bound: b2},
 		{Name: "5b overwrite longer", Pre: [][2]string{{"A", "X"}}, Threads: [][]op{{put("A", "Y")}, {gf("A"), gb("A")}}, Bound: b2},
 		{Name: "6 two goroutines of one process + another process", Threads: [][]op{{put("A", "X")}, {put("A", "X"), gb("A")}, {gf("A")}}, SameCache: []int{0, 1}, Bound: b3},
 		{Name: "1r two writers, fresh", Threads: [][]op{{put("A", "X")}, {put("A", "X")}}, Bound: b2},
